@@ -112,7 +112,7 @@ impl Core {
         // Ensure we won't vote for contradicting blocks.
         self.increase_last_voted_round(block.round);
         #[cfg(hotstuff_verif)]
-        crate::verif::emit(crate::verif::Event::Vote { node: self.name, hash: block.digest(), round: block.round });
+        crate::verif::emit(crate::verif::Event::Vote { node: self.name, hash: block.digest(), round: block.round, block: block.clone() });
         // TODO [issue #15]: Write to storage preferred_round and last_voted_round.
         Some(Vote::new(block, self.name, self.signature_service.clone()).await)
     }
